@@ -568,11 +568,10 @@ func (q *checker) bcheckAssignment(lhs *a.Expr, op t.ID, rhs *a.Expr) error {
 		} else if lhs.MType().IsNumType() && rhs.Mentions(lhs) {
 			// No-op. After "x = x + 1", "x == x + 1" does not hold.
 
-		} else if lhs.MType().IsNumType() && (lhs.Operator() == a.ExprOperatorIndex) &&
-			(mentionsElementOf(lhs.RHS().AsExpr(), containerRoot(lhs)) ||
-				mentionsElementOf(rhs, containerRoot(lhs))) {
-			// No-op. After "x[x[0]] = 1" or "x[i] = x[j] + 1", the index or the
-			// rhs may read the very element that was just stored to.
+		} else if lhs.MType().IsNumType() && (!lhsStableUnderStore(lhs) || !rhsStableUnderStore(lhs, rhs)) {
+			// No-op. After "x[x[0]] = 1", "x[i] = x[j] + 1" or
+			// "this.f = this.foo()", the lhs' index or the rhs may read the
+			// very location that was just stored to.
 
 		} else if lhs.MType().IsNumType() {
 			q.facts.appendBinaryOpFact(t.IDXBinaryEqEq, lhs, rhs)
@@ -657,7 +656,7 @@ func (q *checker) bcheckAssignment(lhs *a.Expr, op t.ID, rhs *a.Expr) error {
 		}
 	}
 
-	if lhs.MType().IsNumType() && ((op != t.IDEq) || (rhs.ConstValue() == nil)) {
+	if lhs.MType().IsNumType() && ((op != t.IDEq) || (rhs.ConstValue() == nil)) && lhsStableUnderStore(lhs) {
 		lb, err := q.bcheckTypeExpr(lhs.MType())
 		if err != nil {
 			return err
@@ -2038,4 +2037,33 @@ func containsCallOnThis(n *a.Expr) bool {
 		return nil
 	})
 	return found
+}
+
+// lhsStableUnderStore returns whether, right after a store to lhs,
+// re-evaluating lhs still denotes the location that was stored to. It does
+// not for "x[x[0]]": the store can change the index.
+func lhsStableUnderStore(lhs *a.Expr) bool {
+	for n := lhs; (n.Operator() == a.ExprOperatorIndex) || (n.Operator() == a.ExprOperatorSlice); n = n.LHS().AsExpr() {
+		if n.Operator() == a.ExprOperatorIndex {
+			if mentionsElementOf(n.RHS().AsExpr(), containerRoot(lhs)) {
+				return false
+			}
+		}
+	}
+	return true
+}
+
+// rhsStableUnderStore returns whether, right after "lhs = rhs", re-evaluating
+// rhs still gives the value that was stored. It does not if rhs reads an
+// element of the container that lhs is an element of, or calls a method of
+// this while lhs is (part of) a field of this.
+func rhsStableUnderStore(lhs *a.Expr, rhs *a.Expr) bool {
+	root := containerRoot(lhs)
+	if (lhs.Operator() == a.ExprOperatorIndex) && mentionsElementOf(rhs, root) {
+		return false
+	}
+	if (root.IsThisDotFoo() != 0) && containsCallOnThis(rhs) {
+		return false
+	}
+	return true
 }
